@@ -27,6 +27,7 @@ func (c20) ID() string { return "C20" }
 type c20Case struct {
 	Kind string `json:"kind"` // "file" | "enum"
 	Recs []int  `json:"recs,omitempty"`
+	Prog []wop  `json:"prog,omitempty"` // writer program with seeks (record indexes into the C20 alphabet)
 	Comp int    `json:"comp"`
 }
 
@@ -60,6 +61,22 @@ func (c c20) Run(ctx *core.Ctx) error {
 		}
 	}
 	rec(nil)
+	// writer programs that seek back to an earlier record boundary and continue (what the table writer does after a
+	// failed index append): the file the writer leaves behind must still parse
+	for l := 2; l <= 3; l++ {
+		for _, p := range rioPrograms(l, []int{0, 1, 2, 3}, nil, 0, -1) {
+			hasSeek := false
+			for _, o := range p {
+				hasSeek = hasSeek || o.Op == "K"
+			}
+			if !hasSeek {
+				continue
+			}
+			for comp := 0; comp < 4; comp++ {
+				cases = append(cases, core.J(c20Case{Kind: "file", Prog: p, Comp: comp}))
+			}
+		}
+	}
 	cases = append(cases, core.J(c20Case{Kind: "enum"}))
 	ctx.Ev.Rule = "every record sequence up to the length bound over {nil, empty, a, 300 compressible bytes, marker-bearing} x 4 compression types is written by the current writer and parsed with gokaitai.RecordioV4; record count, nil flags and stored payload bytes are compared with the byte layout the native reader uses; plus the compression enum of the schema and of the generated code against the writer constants. non-trivial = at least one record"
 	ctx.Ev.Bounds["max_records"] = maxLen
@@ -94,6 +111,16 @@ func (c c20) Case(w *core.WCtx, payload json.RawMessage) core.Result {
 		prog = append(prog, wop{"W", i})
 		names += alpha[i].Name + " "
 	}
+	if cs.Prog != nil {
+		prog = cs.Prog
+		for _, o := range prog {
+			if o.Op == "K" {
+				names += fmt.Sprintf("seek(b%d) ", o.Arg)
+			} else {
+				names += alpha[o.Arg].Name + " "
+			}
+		}
+	}
 	dir := w.Dir()
 	path := tmpFile(dir, "k.rio")
 	m, _, err := rioWrite(path, prog, rioCfg{Comp: cs.Comp, WBuf: 4096}, alpha)
@@ -103,7 +130,7 @@ func (c c20) Case(w *core.WCtx, payload json.RawMessage) core.Result {
 	}
 	r.Trans += int64(len(prog))
 	r.Traces++
-	if len(cs.Recs) > 0 {
+	if len(prog) > 0 {
 		r.Key = core.HashKey(names, fmt.Sprint(cs.Comp))
 	}
 	data := readAll(path)
@@ -123,7 +150,7 @@ func (c c20) Case(w *core.WCtx, payload json.RawMessage) core.Result {
 		r.Evals++
 		// D15 (a): payload length is computed as uncompressed XOR compressed, which is only right for uncompressed non-nil records
 		lenSig := ""
-		if cs.Comp != 0 && len(cs.Recs) > 0 {
+		if cs.Comp != 0 && len(prog) > 0 {
 			lenSig = "D15-kaitai-len-payload"
 		}
 		if err != nil {
